@@ -38,7 +38,9 @@ func New() Queue {
       queue = append(queue, i)
       m.Unlock()
     }
+    m.Lock()
     closed = true
+    m.Unlock()
   }()
   go func() {
     defer close(o.output)
